@@ -396,10 +396,14 @@ worker_start(void *thr_ptr)
 			break;
 
 		// Mark the thread as idle unless the main thread has
-		// told us to exit. Signal is needed for the case
-		// where the main thread is waiting for the threads to stop.
+		// told us to exit or stop. If we were told to stop,
+		// the main thread may be waiting for us in threads_stop().
+		// In that case the state is changed to THR_IDLE in
+		// the beginning of the loop, that is, only after
+		// coder->mutex-protected data has been updated below.
 		mythread_sync(thr->mutex) {
-			if (thr->state != THR_EXIT) {
+			if (thr->state != THR_EXIT
+					&& thr->state != THR_STOP) {
 				thr->state = THR_IDLE;
 				mythread_cond_signal(&thr->cond);
 			}
@@ -1128,6 +1132,16 @@ stream_encoder_mt_init(lzma_next_coder *next, const lzma_allocator *allocator,
 		// Reuse the old structures and threads. Tell the running
 		// threads to stop and wait until they have stopped.
 		threads_stop(coder, true);
+
+		// All threads are idle now. Put all of them to the stack
+		// of free threads. A thread that had been taken from
+		// the stack but that was stopped before it noticed that
+		// it had got work doesn't return itself to the stack.
+		coder->threads_free = NULL;
+		for (uint32_t i = 0; i < coder->threads_initialized; ++i) {
+			coder->threads[i].next = coder->threads_free;
+			coder->threads_free = &coder->threads[i];
+		}
 	}
 
 	// This must be done after the threads have been stopped or ended.
